@@ -736,13 +736,18 @@ impl Gen {
         let open = Op::Open { vamm: v, side: Side::Buy, margin: n, leverage: d, limit: 0 };
         let back = mul_div(n, *rng.pick(&[100u128, 100, 97, 90, 75]), 100)?.max(1);
         let undo = Op::Open { vamm: v, side: Side::Sell, margin: back, leverage: d, limit: 0 };
+        let live = self.profile.prop == "C07";
         let mut liq = Step::new("liquidator", Op::Liquidate { vamm: v, trader: victim, limit: 0 });
-        liq.probes.push(Probe::Liveness);
+        if live {
+            liq.probes.push(Probe::Liveness);
+        }
         self.plan.push(liq);
         let mut st2 = Step::new("whale", undo.clone());
         st2.clock = Some((1, *rng.pick(&[0u64, 0, 1, 15])));
         st2.funds = 0; // set when it runs for native collateral (see next())
-        st2.probes.push(Probe::Liveness);
+        if live {
+            st2.probes.push(Probe::Liveness);
+        }
         self.plan.push(st2);
         let mut st = Step::new("whale", open.clone());
         st.funds = native_funds(r, "whale", &open);
